@@ -217,6 +217,48 @@ def make_trace(tid, rng, nops=30):
     return {"tid": tid, "fmt": "extents", "exts": exts, "sizeB": size_b, "sector": 512, "geo": geo, "events": rec.events}
 
 
+def make_trace_hdd(tid, rng, nops=30, **opt):
+    """B: a Parallels HDD directory with several storages (plain / expanding) opened through HDD(path).open() (StorageStream)."""
+    from dissect.hypervisor.disk.hdd import HDD
+
+    cs = rng.choice([4096, 65536, 63 * 512])
+    k = rng.randrange(2, 5)
+    work = tempfile.mkdtemp(prefix="verif-c10b-")
+    try:
+        d = os.path.join(work, "x.hdd")
+        g = enc_hds.DEFAULT_TOP
+        storages, files, exts, bases = [], {}, [], []
+        start = 0
+        for i in range(k):
+            n = rng.randrange(1, 12)
+            if rng.random() < 0.4:
+                vf = VirtualFile(n * cs, [(0, n * cs, "pat", i)], fid=i)
+                exts.append({"fmt": "flat", "start": start, "n": n, "img": {}})
+                fn, typ = f"s{i}.hdd", "Plain"
+            else:
+                pos = list(range(1, n + 3))
+                rng.shuffle(pos)
+                bat = [0 if rng.random() < 0.3 else pos.pop() for _ in range(n)]
+                vf, info = enc_hds.build({"ver": 2, "n": n, "cb": 1, "bat": {c: bat[c] for c in range(n)}, "size": n}, cluster_size=cs, file_id=i, P=n + 3)
+                exts.append({"fmt": "hds", "start": start, "n": n, "img": {"kind": "hds", "ver": 2, "n": n, "cb": 1, "bat": bat, "size": n, "parent": False}})
+                fn, typ = f"s{i}.hds", "Compressed"
+            files[fn] = vf
+            bases.append(0)
+            storages.append((start * cs // 512, (start + n) * cs // 512, [(g, typ, fn)]))
+            start += n
+        rng.shuffle(storages)
+        enc_hds.write_hdd_dir(d, storages, [(g, enc_hds.NULL_GUID)], files, top_guid=g)
+        size_b = start * cs
+        s = HDD(Path(d)).open()
+        fresh = HDD(Path(d)).open()
+        rec = record.Recorder(s, size_b, probe=fresh.readoffset, align=opt.get("align"))
+        record.random_ops(rec, rng, size_b, nops, unit=cs, big=min(6 * cs + 4096, 1 << 20))
+        geo = {"cellB": cs, "cb": 1, "stride": cs, "bases": bases, "pbase": 0}
+        return {"tid": tid, "fmt": "extents", "exts": exts, "sizeB": size_b, "sector": 512, "geo": geo, "events": rec.events}
+    finally:
+        shutil.rmtree(work, ignore_errors=True)
+
+
 def run(ctx):
     thorough = ctx.tier == "thorough"
     rng = random.Random(ctx.seed + 1010)
@@ -234,7 +276,7 @@ def run(ctx):
         sts = rng.sample(sts, min(len(sts), 700))
     direction_A(ctx, sts, "vmdk")
     direction_A(ctx, diskprop.dump_states(ctx, "Extents", "Extents_hdd.cfg"), "hdd")
-    diskprop.traces(ctx, "extents", lambda tid, r: make_trace(tid, r, 40 if thorough else 25), 200 if thorough else 32,
+    diskprop.traces(ctx, "extents", lambda tid, r: (make_trace if tid % 3 else make_trace_hdd)(tid, r, 40 if thorough else 25), 200 if thorough else 32,
                     "TraceDisk", "TraceDisk.cfg", lambda t: {"format": "extents", "n": len(t["exts"])}, label="random extent lists")
 
 
